@@ -26,7 +26,9 @@ if [ ! -x "$dir/mc" ]; then
   if [ "$MODE" = maporder ]; then flags="-maporder"; fi
   if [ -n "${VERIF_BASE_OVERLAY:-}" ]; then flags="$flags -base $VERIF_BASE_OVERLAY"; fi
   "$tmp/overlaygen" -repo "$REPO" -out "$tmp/ov" $flags >&2
-  go build -tags verif -overlay "$tmp/ov/overlay.json" -o "$tmp/mc" ./cmd/mc >&2
+  tags=verif
+  if [ "$MODE" = maporder ]; then tags=verif,maporder; fi
+  go build -tags "$tags" -overlay "$tmp/ov/overlay.json" -o "$tmp/mc" ./cmd/mc >&2
   rm -f "$tmp/overlaygen"
   if [ -e "$dir" ]; then rm -rf "$tmp"; else
     # overlay.json refers to $tmp paths: rewrite to the final location before publishing
